@@ -50,3 +50,6 @@
 (assert (forall ((f Frame) (t Stk)) (! (= (stk_ok (scons f t)) (and (>= (fcnt f) 0) (stk_ok t))) :pattern ((stk_ok (scons f t))))))
 (define-fun float_is_nan ((bits Int)) Bool (and (= (mod (div bits 4503599627370496) 2048) 2047) (not (= (mod bits 4503599627370496) 0))))
 (define-fun float_is_inf ((bits Int)) Bool (and (= (mod (div bits 4503599627370496) 2048) 2047) (= (mod bits 4503599627370496) 0)))
+; well-formedness of a list of fields (payload agrees with the type tag, recursively for nested objects):
+; abstract and heap-independent -- field lists handed to the library are not modified while it runs
+(declare-fun wf_fields (Slice) Bool)
